@@ -583,8 +583,7 @@ Alternating(cs) == \A i \in 1..Len(cs) : cs[i].op = (IF i % 2 = 1 THEN "select" 
 MayCall(op, last) ==
   \/ Len(calls) < MaxCalls - last
   \/ Len(calls) < AltCalls - last /\ Alternating(calls) /\ op = (IF Len(calls) % 2 = 0 THEN "select" ELSE "parse")
-Complete == \/ Len(calls) = MaxCalls
-            \/ Len(calls) > MaxCalls /\ Len(calls) = AltCalls
+
 
 HSelect ==
   /\ stage = "hist" /\ MayCall("select", 1)                \* a history ends with a parse
@@ -597,23 +596,25 @@ HParse ==
   /\ stage = "hist" /\ MayCall("parse", 0)
   /\ \E o \in Options(be) : OptionOK(be, o) /\ opt' = o
   /\ UNCHANGED <<stage, env, pick, query, tsel, be>>
-  /\ \E cs \in {calls} : calls' = Append(cs, ParseCall(cs)')      \* the expectation is evaluated in the state after the call
+  /\ \E o \in {opt'} : calls' = Append(calls, [op |-> "parse", opt |-> o])
 
 \* the expectation of a parse is a function of the last selection before it and of its own options
 LastSelect(k) == IF \E i \in 1..(k - 1) : calls[i].op = "select"
                  THEN calls[CHOOSE i \in 1..(k - 1) : calls[i].op = "select" /\ \A j \in (i + 1)..(k - 1) : calls[j].op # "select"]
                  ELSE [op |-> "select", query |-> "", tags |-> {}]
+\* the two-variable machine (query, tsel) holds exactly the last selection made on the object, opt the options of the call
 LemmaHistory ==
-  \A k \in 1..Len(calls) : calls[k].op = "parse" =>
-     /\ calls[k].query = LastSelect(k).query /\ calls[k].tags = LastSelect(k).tags
-     /\ \A l \in 1..Len(calls) :
-          (calls[l].op = "parse" /\ calls[l].opt = calls[k].opt /\ LastSelect(l).query = LastSelect(k).query /\ LastSelect(l).tags = LastSelect(k).tags)
-          => (calls[l].expect = calls[k].expect /\ calls[l].unselected = calls[k].unselected)
+  LET n == Len(calls) IN
+  /\ Dotted(query) = LastSelect(n).query /\ tsel = LastSelect(n).tags
+  /\ calls[n].op = "parse" => opt = calls[n].opt
 
+\* one record per history: the calls, and what the reader must see after the LAST parse (every prefix that ends with a
+\* parse is itself a history, so every parse of every history is judged)
 HistoryRecord ==
   [ family |-> Family, be |-> be, rename |-> opt.rename,
     env    |-> Record.env,
-    calls  |-> calls ]
+    calls  |-> calls,
+    last   |-> ParseCall(SubSeq(calls, 1, Len(calls) - 1)) ]
 
 
 ---------------------------------------------------------------------------
@@ -645,12 +646,12 @@ CExport ==
   /\ stage = "chain" /\ Len(calls) < MaxChain
   /\ \E b \in Backends : be' = b
   /\ UNCHANGED <<stage, env, pick, query, tsel, opt>>
-  /\ \E cs \in {calls} : calls' = Append(cs, ExportCall(cs)')
+  /\ \E b \in {be'} : calls' = Append(calls, [op |-> "export", be |-> b, opt |-> opt])
 
-LemmaChain ==            \* what must be read back does not depend on the position in the chain
-  \A k, l \in 1..Len(calls) : calls[k].be = calls[l].be => calls[k].expect = calls[l].expect
+LemmaChain == env = ChainEnv /\ calls[Len(calls)].be = be      \* the environment is a constant of the chain
 
-ChainRecord == [ family |-> Family, env |-> Record.env, calls |-> calls ]
+\* the calls of the chain, and what the reader must see in the LAST export
+ChainRecord == [ family |-> Family, env |-> Record.env, calls |-> calls, last |-> ExportCall(SubSeq(calls, 1, Len(calls) - 1)) ]
 
 Next == AddTypeParam \/ AddSelParam \/ CloseEnv \/ ChooseSel \/ ChooseBackend \/ StartHistory \/ HSelect \/ HParse
         \/ StartChain \/ CExport
@@ -663,8 +664,8 @@ Lemmas ==
        /\ LemmaEnv /\ LemmaNames /\ LemmaShapes /\ LemmaSelection /\ LemmaDefinition
        /\ PrintT(ToJson(Record))
   /\ (stage = "hist" /\ Len(calls) > 0 /\ calls[Len(calls)].op = "parse") =>
-       /\ LemmaEnv /\ LemmaNames /\ LemmaShapes /\ LemmaSelection
-       /\ Complete => (LemmaHistory /\ PrintT(ToJson(HistoryRecord)))     \* every pair of parses of the history
+       /\ LemmaEnv /\ LemmaNames /\ LemmaShapes /\ LemmaSelection /\ LemmaHistory
+       /\ PrintT(ToJson(HistoryRecord))
   /\ (stage = "chain" /\ Len(calls) > 0) =>
        /\ LemmaEnv /\ LemmaNames /\ LemmaShapes /\ LemmaSelection /\ LemmaChain
        /\ (Len(calls) = MaxChain) => PrintT(ToJson(ChainRecord))
